@@ -1,7 +1,279 @@
 import Driver.Wire
-/-! Driver commands of the Num area (filled in by the area's owner). -/
-namespace Marwood.Driver.Num
+import Marwood.Num.Arith
+import Marwood.Num.Cmp
+import Marwood.Spec.Rat
+/-!
+Driver commands of the Num area (C08, C09).
 
-def handle (_cmd : String) (_args : List String) : Option String := none
+* `num <op> <a> [<b>]`, `num pow <a> <e>`  — model of the direct `Number` API
+* `scm <proc> <a1> … <an>`                — model of the Scheme-level procedure
+* `spec <request…> => <response…>`        — judgement of an answer against ℚ (`conforms`,
+  `violates <why>`, `outside <why>`)
+
+Answers: `ok <num>` | `ok b0|b1` | `err <class>` | `panic`; NaN results are canonical.
+-/
+namespace Marwood.Driver.Num
+open Marwood Marwood.Wire Marwood.Arith
+
+def showNum (n : Marwood.Num) : String :=
+  match n with
+  | .flo f => encNum (.flo (Fl.canon f))
+  | _ => encNum n
+
+def showOutcome : Outcome Marwood.Num → String
+  | .ok n => "ok " ++ showNum n
+  | .err c => "err " ++ c
+  | .panic _ => "panic"
+
+def showOptOutcome : Outcome (Option Marwood.Num) → String
+  | .ok (some n) => "ok " ++ showNum n
+  | .ok none => "err none"
+  | .err c => "err " ++ c
+  | .panic _ => "panic"
+
+def showBool (b : Bool) : String := if b then "ok b1" else "ok b0"
+
+def showBoolOutcome : Outcome Bool → String
+  | .ok b => showBool b
+  | .err c => "err " ++ c
+  | .panic _ => "panic"
+
+def decArgs (ws : List String) : Option (List Marwood.Num) := ws.mapM decNum
+
+/-! ## model -/
+
+def modelNum (op : String) (args : List String) : Option String :=
+  match op, args with
+  | "pow", [a, e] => do
+    let a ← decNum a
+    let e ← e.toNat?
+    (pow a e).map fun r => "ok " ++ showNum r
+  | _, [a, b] => do
+    let a ← decNum a
+    let b ← decNum b
+    match op with
+    | "add" => some ("ok " ++ showNum (add a b))
+    | "sub" => some ("ok " ++ showNum (sub a b))
+    | "mul" => some ("ok " ++ showNum (mul a b))
+    | "div" => some (showOutcome (div a b))
+    | "quotient" => (quotient a b).map showOptOutcome
+    | "rem" => (rem a b).map showOptOutcome
+    | "modulo" => (modulo a b).map showOptOutcome
+    | "eq" => some (showBool (Cmp.eq a b))
+    | "lt" => some (showBool (Cmp.lt a b))
+    | "gt" => some (showBool (Cmp.gt a b))
+    | "le" => some (showBool (Cmp.le a b))
+    | "ge" => some (showBool (Cmp.ge a b))
+    | _ => none
+  | _, [a] => do
+    let a ← decNum a
+    let r ← match op with
+      | "abs" => abs a
+      | "floor" => floor a
+      | "ceil" => ceil a
+      | "trunc" => truncate a
+      | "round" => round a
+      | "numer" => numerator a
+      | "denom" => denominator a
+      | _ => none
+    pure ("ok " ++ showNum r)
+  | _, _ => none
+
+def modelScm (proc : String) (args : List Marwood.Num) : Option String :=
+  match proc with
+  | "+" => some (showOutcome (scmPlus args))
+  | "-" => some (showOutcome (scmMinus args))
+  | "*" => some (showOutcome (scmTimes args))
+  | "/" => some (showOutcome (scmDivide args))
+  | "quotient" => (scmQuotient args).map showOutcome
+  | "remainder" => (scmRemainder args).map showOutcome
+  | "modulo" => (scmModulo args).map showOutcome
+  | "abs" => (scmUnary abs args).map showOutcome
+  | "floor" => (scmUnary floor args).map showOutcome
+  | "ceiling" => (scmUnary ceil args).map showOutcome
+  | "truncate" => (scmUnary truncate args).map showOutcome
+  | "round" => (scmUnary round args).map showOutcome
+  | "numerator" => (scmUnary numerator args).map showOutcome
+  | "denominator" => (scmUnary denominator args).map showOutcome
+  | "expt" => (scmExpt args).map showOutcome
+  | "=" => some (showBoolOutcome (Cmp.scmEq args))
+  | "<" => some (showBoolOutcome (Cmp.scmLt args))
+  | ">" => some (showBoolOutcome (Cmp.scmGt args))
+  | "<=" => some (showBoolOutcome (Cmp.scmLe args))
+  | ">=" => some (showBoolOutcome (Cmp.scmGe args))
+  | "zero?" => some (showBoolOutcome (Cmp.scmPred Cmp.isZero args))
+  | "positive?" => some (showBoolOutcome (Cmp.scmPred Cmp.isPositive args))
+  | "negative?" => some (showBoolOutcome (Cmp.scmPred Cmp.isNegative args))
+  | "min" => some (showOutcome (Cmp.scmMin args))
+  | "max" => some (showOutcome (Cmp.scmMax args))
+  | _ => none
+
+/-! ## specification -/
+open Marwood.NumSpec
+
+inductive Resp
+  | num (n : Marwood.Num)
+  | bool (b : Bool)
+  | err
+  | panic
+
+def decResp : List String → Option Resp
+  | ["ok", "b1"] => some (.bool true)
+  | ["ok", "b0"] => some (.bool false)
+  | ["ok", w] => (decNum w).map .num
+  | "err" :: _ => some .err
+  | ["panic"] => some .panic
+  | _ => none
+
+/-- what the property demands of a question -/
+inductive Demand
+  | value (r : Rat) (mags : List Rat) (mustBeExact : Bool)   -- C08: this exact value
+  | error                                                     -- the call has no value: an error, not a crash
+  | truth (b : Bool)                                          -- C09: this boolean
+  | extreme (target : Ext) (args : List Ext)                  -- C09: an argument with this value
+  | outside (why : String)                                    -- not quantified over by the property
+
+def exactVals (args : List Marwood.Num) : Option (List Rat) :=
+  args.mapM fun a => if isExact a then val a else none
+
+def mags (vs : List Rat) : List Rat := vs.map absR
+
+/-- canonical arithmetic names: the direct API and the procedures share one table -/
+def canonOp : String → String
+  | "add" => "+" | "sub" => "-" | "mul" => "*" | "div" => "/"
+  | "rem" => "remainder" | "ceil" => "ceiling" | "trunc" => "truncate"
+  | "numer" => "numerator" | "denom" => "denominator"
+  | "eq" => "=" | "lt" => "<" | "gt" => ">" | "le" => "<=" | "ge" => ">="
+  | s => s
+
+def demandArith (direct : Bool) (op : String) (vs : List Rat) : Option Demand :=
+  let v (r : Rat) (ex : Bool := false) : Option Demand := some (.value r (mags vs) ex)
+  let opt (r : Option Rat) (ex : Bool := false) : Option Demand :=
+    match r with
+    | some r => some (.value r (mags vs) ex)
+    | none => some .error
+  match op, vs with
+  | "+", _ => if direct && vs.length != 2 then none else v (vs.foldl (· + ·) 0)
+  | "*", _ => if direct && vs.length != 2 then none else v (vs.foldl (· * ·) 1)
+  | "-", [] => some .error
+  | "-", [a] => v (-a)
+  | "-", a :: rest => v (a - rest.foldl (· + ·) 0)
+  | "/", [y] => if direct then none else opt (specDiv 1 y)
+  | "/", [x, y] => opt (specDiv x y)
+  | "/", _ => some .error
+  | "quotient", [x, y] => opt (specQuotient x y) true
+  | "remainder", [x, y] => opt (specRemainder x y) true
+  | "modulo", [x, y] => opt (specModulo x y) true
+  | "abs", [x] => v (absR x)
+  | "floor", [x] => v (specFloor x) true
+  | "ceiling", [x] => v (specCeil x) true
+  | "truncate", [x] => v (specTrunc x) true
+  | "numerator", [x] => v (x.num : Int) true
+  | "denominator", [x] => v (x.den : Nat) true
+  | "quotient", _ => some .error
+  | "remainder", _ => some .error
+  | "modulo", _ => some .error
+  | "abs", _ => some .error
+  | "floor", _ => some .error
+  | "ceiling", _ => some .error
+  | "truncate", _ => some .error
+  | "numerator", _ => some .error
+  | "denominator", _ => some .error
+  | "expt", [x, e] =>
+    if e.den == 1 && 0 ≤ e.num && e.num ≤ 4294967295 then v (x ^ e.num.toNat)
+    else some (.outside "exponent-not-a-u32")
+  | "expt", _ => some .error
+  | _, _ => none
+
+def demandCmp (op : String) (es : List Ext) : Option Demand :=
+  let zero : Ext := .fin 0
+  match op, es with
+  | "zero?", [x] => some (.truth (x == zero))
+  | "positive?", [x] => some (.truth (Ext.lt zero x))
+  | "negative?", [x] => some (.truth (Ext.lt x zero))
+  | "zero?", _ => some .error
+  | "positive?", _ => some .error
+  | "negative?", _ => some .error
+  | "min", a :: b :: rest =>
+    some (.extreme ((b :: rest).foldl (fun m x => if Ext.lt x m then x else m) a) es)
+  | "max", a :: b :: rest =>
+    some (.extreme ((b :: rest).foldl (fun m x => if Ext.lt m x then x else m) a) es)
+  | "min", _ => some .error
+  | "max", _ => some .error
+  | _, [] => if ["=", "<", ">", "<=", ">="].contains op then some .error else none
+  | _, _ =>
+    match op with
+    | "=" => some (.truth (chain (· == ·) es))
+    | "<" => some (.truth (chain Ext.lt es))
+    | ">" => some (.truth (chain (fun a b => Ext.lt b a) es))
+    | "<=" => some (.truth (chain Ext.le es))
+    | ">=" => some (.truth (chain (fun a b => Ext.le b a) es))
+    | _ => none
+
+def isCmpOp (op : String) : Bool :=
+  ["=", "<", ">", "<=", ">=", "zero?", "positive?", "negative?", "min", "max"].contains op
+
+def demand (direct : Bool) (op : String) (args : List Marwood.Num) : Option Demand :=
+  let op := canonOp op
+  if isCmpOp op then
+    match args.mapM ext with
+    | some es => demandCmp op es
+    | none => some (.outside "nan-operand")
+  else
+    match exactVals args with
+    | some vs => demandArith direct op vs
+    | none => some (.outside "inexact-operand")
+
+def judge (d : Demand) (r : Resp) : Verdict :=
+  match d, r with
+  | .outside w, _ => .outside w
+  | _, .panic => .violates "panic"
+  | .error, .err => .conforms
+  | .error, _ => .violates "value-where-no-value-exists"
+  | .value _ _ _, .err => .violates "error-on-defined-operation"
+  | .value r m ex, .num x => judgeValue r m ex x
+  | .value _ _ _, .bool _ => .violates "boolean-for-number"
+  | .truth _, .err => .violates "error-on-defined-comparison"
+  | .truth b, .bool c => if b == c then .conforms else .violates "wrong-truth-value"
+  | .truth _, .num _ => .violates "number-for-boolean"
+  | .extreme _ _, .err => .violates "error-on-defined-operation"
+  | .extreme t _, .num x =>
+    match ext x with
+    | some e => if e == t then .conforms else .violates "not-the-extreme-value"
+    | none => .violates "nan-result"
+  | .extreme _ _, .bool _ => .violates "boolean-for-number"
+
+def splitArrow : List String → List String → Option (List String × List String)
+  | _, [] => none
+  | acc, "=>" :: rest => some (acc.reverse, rest)
+  | acc, w :: rest => splitArrow (w :: acc) rest
+
+def specCmd (args : List String) : Option String := do
+  let (req, resp) ← splitArrow [] args
+  let r ← decResp resp
+  match req with
+  | "num" :: "pow" :: [a, e] =>
+    let a ← decNum a
+    let e ← e.toNat?
+    let d ← demand true "expt" [a, .fix e]
+    pure (judge d r).show
+  | "num" :: op :: ws =>
+    let xs ← decArgs ws
+    let d ← demand true op xs
+    pure (judge d r).show
+  | "scm" :: proc :: ws =>
+    let xs ← decArgs ws
+    let d ← demand false proc xs
+    pure (judge d r).show
+  | _ => none
+
+def handle (cmd : String) (args : List String) : Option String :=
+  match cmd, args with
+  | "num", op :: rest => modelNum op rest
+  | "scm", proc :: rest => do
+    let xs ← decArgs rest
+    modelScm proc xs
+  | "spec", _ => specCmd args
+  | _, _ => none
 
 end Marwood.Driver.Num
